@@ -62,7 +62,7 @@ def _run_case(ctx, case):
         s2, applied = GS.respell(base, rng, obs)
         c2, e2 = ref_colored(s2)
         if not iso.isomorphic(c0, e0, c2, e2):
-            ctx.inconclusive.append(f"harness respeller changed the meaning of {base[:80]} -> {s2[:80]}")
+            ctx.hard_inconclusive.append(f"harness respeller changed the meaning of {base[:80]} -> {s2[:80]}")
             continue
         ctx.mon("respeller_validated")
         for a in applied:
